@@ -308,5 +308,24 @@ def gaussian_refusal_rule(chk, repo, clause, paths):
         guarded = bool(draws) and all(tests(p, what) for p in draws)
         refused = any(tests(p, what) for p in raises)
         ok = (guarded and refused) or (what == 'neg' and strict_state and bool(raises))
+        if ok and what == 'big':
+            # head-room: a draw lies several sigma = sqrt(signal) above the signal, so the largest admitted signal has to stay
+            # that far below the largest integer (the Poisson sampler's own limit is 2**63 - 10*sqrt(2**63))
+            limit = 2 ** 63 - 6 * (2 ** 63) ** 0.5
+            bounds = []
+            for p in draws:
+                for c, pol in literals(p.conds):
+                    if 'amax' in fmt(c) or 'max(' in fmt(c):
+                        a = c.single_atom()
+                        for x in (a[2] if a is not None and is_app(a, ('lt', 'le')) else []):
+                            if isinstance(x, Poly) and x.const_value() is not None:
+                                bounds.append(float(x.const_value()))
+                            elif isinstance(x, Poly) and ('sym', 'img') not in nf.value_atoms(x):
+                                bounds.append(None)
+            if not bounds or any(b is None or b > limit for b in bounds):
+                ok = False
+                why = ('the largest admitted signal is ' + (f'{max(b for b in bounds if b is not None):.6g}' if any(b is not None for b in bounds)
+                                                              else 'not a number known here (e.g. the largest integer itself)') +
+                       ': a normal draw several sigma above it no longer fits a 64-bit integer and is cast to -9.2e18')
         chk.ob(clause, 'D-refusal', f.key, f'Gaussian method: {label}', ok if draws else None,
                'tested on the way to the draw' if ok else f'no test of the signal stands between the argument and the draw: {why}', f.loc())
